@@ -57,9 +57,65 @@ def token_hash(src, it):
     return hashlib.sha256(sig.encode()).hexdigest()[:12]
 
 
+def unit_covered(unit):
+    """(file, item start token) of every function a unit extracts (fn / sig directives) or pins"""
+    cov = set()
+    path = '/verif/units/%s/unit.rs' % unit
+    if not os.path.exists(path):
+        return cov
+    for line in open(path):
+        m = re.match(r'\s*//@@ (fn|sig|pin)\s+(\S+)\s*::\s*(.*?)(?:\s*->\s*\w+)?\s*$', line)
+        if not m:
+            continue
+        rel, sel = m.group(2), m.group(3).strip()
+        if m.group(1) == 'pin':
+            sel = sel.rsplit('=', 1)[0].strip()
+        try:
+            src = cache.get(rel)
+        except Exception:
+            continue
+        found = src.find(sel)
+        om = re.search(r'#(\d+)$', sel)
+        if not found and om:
+            found = src.find(sel[:om.start()].strip())
+            found = found[int(om.group(1)):int(om.group(1)) + 1]
+        for it in found:
+            cov.add((rel, it.start))
+    return cov
+
+
+def auto_rows(prop, anchors, units, seen):
+    """every function of the property's anchor files that none of its units extracts or pins (the coverage map, computed instead of curated)"""
+    import glob
+    cov = set()
+    for u in units:
+        cov |= unit_covered(u)
+    rows = []
+    for pat in anchors:
+        for path in sorted(glob.glob(os.path.join('/repo', pat))):
+            rel = os.path.relpath(path, '/repo')
+            if prop == 'C18' and rel == 'src/filter/buffer.rs':
+                continue    # exercised by the injected Kani harnesses
+            src, fns = all_fns(rel)
+            for sel, it in fns:
+                if 'DotBuilder' in sel or (rel, it.start) in cov or (rel, sel) in seen:
+                    continue
+                if len(src.find(sel)) != 1:
+                    continue
+                seen.add((rel, sel))
+                rows.append({'file': rel, 'selector': sel, 'hash': token_hash(src, it), 'auto': True})
+    return rows
+
+
 if __name__ == '__main__':
     out = {}
-    for prop, pats in sorted(CURATED.items()):
+    props = json.load(open('/verif/props.json'))
+    anchors = {}
+    for l in open('/verif/properties.jsonl'):
+        pj = json.loads(l)
+        anchors[pj['id']] = pj['anchors']['files']
+    for prop in sorted(props):
+        pats = CURATED.get(prop, [])
         seen = set()
         rows = []
         for rel, pat in pats:
@@ -72,6 +128,7 @@ if __name__ == '__main__':
                     continue
                 seen.add((rel, sel))
                 rows.append({'file': rel, 'selector': sel, 'hash': token_hash(src, it)})
+        rows += auto_rows(prop, anchors.get(prop, []), list(props[prop].get('units', {}).keys()), seen)
         out[prop] = rows
     json.dump(out, open('/verif/context_pins.json', 'w'), indent=1)
     print({k: len(v) for k, v in out.items()}, sum(len(v) for v in out.values()))
